@@ -6,6 +6,10 @@ CONSTANTS
   SeqNo = {"0"}
   Tags = {"t"}
   Fails = {"m"}
+  Codes = {0, 1}
+  CodeOverride = FALSE
+  SameFs = FALSE
+  TempRename = FALSE
   Memo = "off"
 INVARIANTS P_CurrentSeqFileIsLoopReport P_CurrentSeqFileCarriesThisPoll P_ReportDomain P_ErrorOnlyAfterSustainedFailure P_NeverErrorAfterSuccess P_TwoSuccessesGiveSuccess
 POSTCONDITION Accepted
